@@ -26,6 +26,10 @@ TRUSTED = [
 ]
 ASSUMPTIONS = [
     'npoly = 1 (one-dimensional fits); the x2/npoly>1 path is outside',
+    'the constructor writes its coverage repair (smallest / largest entry := x.min() / x.max()) into the CALLER\'s bkpt= array (the object '
+    'keeps a copy): observed and counted (coverage.aliasing_and_layout.bkpt_cover_repair_in_place), accepted only when the array then '
+    'holds exactly that repair -- every other change of bkpt=, placed=, x or the evaluation array is reported; a second object built '
+    'from the same argument objects must get the knots of one built from pristine copies',
     'repeated INTERIOR knots are exercised (explicit breakpoints); a repeated first/last breakpoint (zero padding spacing) is outside',
     'the constructor receives sorted abscissae when everyn is used (as iterfit supplies them); for the other '
     'options only min/max of the data matter and unsorted data are exercised',
@@ -182,6 +186,17 @@ def gen_call(rng, idx):
     if idx % 5 in (1, 2) and "sparse" not in call:
         call['history'] = {'mode': 'inplace' if idx % 2 else 'assign', 'shift': rng.choice([0.125, 0.375, -0.25]),
                            'follow': rng.random() < 0.7}
+    elif idx % 5 in (0, 3, 4) and idx % 3 == 0 and call.get('sparse') != 'single':
+        # the SAME evaluation array object again after the caller changed its contents in place (x += dx, x[:] = ..., shuffle,
+        # sort), or handed to a second object on the same grid; the coefficients change (in place / by assignment) or not
+        call['reuse'] = {'mode': ['iadd', 'shuffle', 'assign', 'second-object', 'shuffle', 'sort'][(idx // 3) % 6],
+                         'shift': rng.choice([0.0625, -0.125, 0.25]), 'seed': rng.randrange(1 << 30),
+                         'newcoeff': (idx // 10) % 2 == 0, 'coeff_inplace': (idx // 20) % 2 == 0}
+    # repeated evaluation points; memory layout of the arrays handed to the constructor and to value()
+    if 'sparse' not in call:
+        call['dups'] = [0, 2, 0, 0, 3, 0][idx % 6]
+    call['xe_layout'] = ['contiguous', 'strided', 'reversed'][(idx // 3) % 3]
+    call['xs_layout'] = ['contiguous', 'reversed', 'strided'][(idx // 4) % 3]
     return call
 
 
@@ -215,8 +230,8 @@ def long_term(c, r):
                                                  bl(r['outside_masks']))
 
 
-def hist_term(c, r):
-    h = r['hist']
+def hist_term(c, r, key='hist'):
+    h = r[key]
     ob = '(mkObsv %s %s %s %s %s %s %s %s %s)' % (
         ql(h['bk']), ql(h['xe']), nl(h['perm']), ql(h['yy']), bl(h['mask']), nl(h['indx']),
         C.coq_list([ql(row) for row in h['bs']]), zl(h['lower']), zl(h['upper']))
@@ -249,6 +264,13 @@ def correspond(ctx, proof_ok=True):
     dist = {}
     npoints = 0
     seen = set()
+    astats = {'bkpt_cover_repair_in_place': 0, 'second_init_same_objects': 0}
+    gch = sorted(set(sum([o.get('globals_changed', {}).get('by_import', []) + o.get('globals_changed', {}).get('by_calls', []) for o in outs], [])))
+    ctx.coverage['process_globals_changed'] = gch
+    if gch:
+        ctx.violation('C08:process-globals-changed', 'importing pydl.pydlutils.bspline / evaluating splines changed process-global settings: %s' % gch,
+                      {'kind': 'broken-correspondence', 'item': 'process-global state (np.geterr, print options, warnings.filters, os.environ)',
+                       'globals_changed': [o.get('globals_changed') for o in outs]}, False)
     # ---- long splines (> 100000 intervals): behaviour of the real code, judged point by point on windows
     lcalls = [gen_long(rng, i) for i in range(ctx.n(3, 18))]
     louts = C.run_impl_parallel('c08_impl.py', [[lc] for lc in lcalls])
@@ -325,9 +347,49 @@ def correspond(ctx, proof_ok=True):
                 seen.add(sig)
                 ctx.violation(sig, 'a caller-owned array was modified by the call (%s) / the result shares memory with an argument' % r.get('args_mutated'),
                               {'kind': 'failing-input', 'call': c, 'impl_result': {k_: r[k_] for k_ in ('args_mutated', 'result_aliases_arg')}}, True)
+        astats['bkpt_cover_repair_in_place'] += 1 if r.get('bkpt_cover_repair_in_place') else 0
+        if 'derived_same' in r or 'derived_err' in r:
+            astats['derived_objects'] = astats.get('derived_objects', 0) + 1
+            if r.get('derived_err') or not r.get('derived_same'):
+                sig = 'C08:derived-object:property'
+                if sig not in seen:
+                    seen.add(sig)
+                    ctx.violation(sig, 'copy.deepcopy / copy.copy / pickle round trip of a bspline does not evaluate like the object it was made from: %s' % (
+                        r.get('derived_err') or 'values or mask differ'),
+                        {'kind': 'failing-input', 'history': ['b = bspline(...)', 'b2 = copy.deepcopy(b) | pickle.loads(pickle.dumps(b)) | copy.copy(b)', 'b2.value(x) != b.value(x)'],
+                         'call': c, 'impl_result': {k_: r.get(k_) for k_ in ('derived_err', 'derived_same', 'bk')}}, True)
+        if 'second_init_same' in r or 'second_init' in r:
+            astats['second_init_same_objects'] += 1
+            if r.get('second_init') or not r.get('second_init_same') or r.get('object_keeps_argument'):
+                sig = 'C08:init:second-call-same-arguments'
+                if sig not in seen:
+                    seen.add(sig)
+                    ctx.violation(sig, 'a second bspline built from the SAME argument objects (%s=) does not get the knots of one built from pristine copies '
+                                  '(%s), or the object keeps a reference to the caller\'s array (%s)' % (
+                                      c['opt']['kind'], r.get('second_init') or r.get('second_init_same'), r.get('object_keeps_argument')),
+                                  {'kind': 'failing-input', 'history': ['b = bspline(x, %s=grid)' % c['opt']['kind'], 'b2 = bspline(x, %s=grid)  # same objects' % c['opt']['kind'],
+                                                                        'b3 = bspline(x.copy(), %s=<copy of the grid>)' % c['opt']['kind']],
+                                   'call': c, 'impl_result': {k_: r.get(k_) for k_ in ('second_init', 'second_init_same', 'object_keeps_argument', 'bk')}}, True)
         terms.append(case_term(c, r))
         owners.append(i)
         npoints += len(r['xe'])
+        ru = r.get('reuse')
+        if ru is not None:
+            mode = c['reuse']['mode']
+            astats['reuse:' + mode] = astats.get('reuse:' + mode, 0) + 1
+            rhist = ['b.value(x)', {'iadd': 'x += dx', 'assign': 'x[:] = <other points>', 'shuffle': 'shuffle x in place', 'sort': 'x.sort()',
+                                   'second-object': 'b2 = bspline(<same arguments>), other coefficients'}[mode] +
+                     ('; coefficients changed' if c['reuse'].get('newcoeff') else ''), '%s.value(x)   # the same ndarray object' % ('b2' if mode == 'second-object' else 'b')]
+            if 'err' in ru or not ru.get('finite', True) or ru.get('arg_modified'):
+                sig = 'C08:reuse:impl=%s' % (ru.get('err') or ('argument-modified' if ru.get('arg_modified') else 'non-finite'))
+                if sig not in seen:
+                    seen.add(sig)
+                    ctx.violation(sig, 'evaluating the same array object again (%s): %s %s' % (mode, ru.get('err'), ru.get('msg', '')),
+                                  {'kind': 'failing-input', 'history': rhist, 'call': c, 'impl_result': ru}, True)
+            else:
+                terms.append(hist_term(c, r, 'reuse'))
+                owners.append(('reuse', i, rhist))
+                npoints += len(ru['xe'])
         h = r.get('hist')
         if h is not None:
             if 'err' in h or not h.get('finite', True):
@@ -354,10 +416,32 @@ def correspond(ctx, proof_ok=True):
         'model_disagreements': sum(1 for v in verdicts if v & 1),
         'spec_violations': sum(1 for v in verdicts if v & 2),
         'samples': [{'call': {k: (v if k != 'coeff' else v[:6]) for k, v in calls[i].items()},
-                     'impl': {k: results[i][k] for k in ('bk', 'bk_dtype', 'nc')}} for i in [o for o in owners if o >= 0][:3]],
+                     'impl': {k: results[i][k] for k in ('bk', 'bk_dtype', 'nc')}} for i in [o for o in owners if isinstance(o, int) and o >= 0][:3]],
+        'aliasing_and_layout': astats,
+        'genuinely_permuted_evaluations': sum(1 for o in owners if isinstance(o, int) and o >= 0 and results[o]['xe'] not in (
+            sorted(results[o]['xe']), sorted(results[o]['xe'], reverse=True))),
     })
     for t, i, v in zip(terms, owners, verdicts):
         if v == 0:
+            continue
+        if isinstance(i, tuple):
+            _tag, i0, rhist = i
+            c, r = calls[i0], results[i0]
+            sig = 'C08:reuse:%s' % ('property' if v & 2 else 'model')
+            if sig in seen:
+                continue
+            seen.add(sig)
+            diag = cc.show('diagnose %s' % t)
+            if not v & 2:
+                ctx.violation(sig, 'same-array re-evaluation (%s): model and implementation disagree; the specification accepts the output' % c['reuse']['mode'],
+                              {'kind': 'broken-correspondence', 'item': 'C08.Model.run_case (CHist)', 'history': rhist, 'call': c, 'impl_result': r['reuse'],
+                               'verdict': v, 'diagnose': diag[-300:]}, False)
+                continue
+            ctx.violation(sig, 'value() called again with the SAME array object after its contents were changed in place / on a second object (%s): '
+                          'the values returned are not the spline of the knots and coefficients at the points the array NOW holds, in the '
+                          'caller\'s order (%s, nord=%d)' % (c['reuse']['mode'], c['opt']['kind'], c['nord']),
+                          {'kind': 'failing-input', 'history': rhist, 'call': c, 'impl_result': r['reuse'], 'verdict': v, 'diagnose': diag[-300:],
+                           'meaning': 'diagnose = [-; model_eval; knots sorted; spec_values; spec_mask; spec_basis] for the CURRENT contents of x'}, True)
             continue
         if i < 0:
             c, r = calls[-i - 1], results[-i - 1]
